@@ -10,7 +10,7 @@ for i in range(1, 21):
     pid = f'c{i:02d}'
     if os.path.exists(os.path.join(V, 'harness', 'props', pid + '.py')):
         mod = importlib.import_module('props.' + pid)
-        for rel in getattr(mod, 'ANCHOR_FILES', []):
+        for rel in core.anchor_files(pid.upper(), mod):
             p = os.path.join('/repo', rel)
             out[rel] = core.anchor_fingerprint(p) if p.endswith('.py') else (hashlib.sha256(open(p, 'rb').read()).hexdigest()[:24] if os.path.exists(p) else 'missing')
 json.dump(out, open(os.path.join(V, 'harness', 'anchors.json'), 'w'), indent=1, sort_keys=True)
